@@ -104,7 +104,7 @@ func runC02(c *Ctx) {
 		}
 	}
 	c.Rep.Extra["signed_images"] = len(images)
-	nflip := c.N(14, 300)
+	nflip := c.Bound(14, 300)
 	for idx, si := range images {
 		others := otherCerts(si.seed, rng)
 		check := func(class string, img []byte, certs bool) {
